@@ -957,6 +957,15 @@ class FnEmitter:
         return '(%s ? %s : %s)' % (self.expr(c), self.expr(a), self.expr(b))
 
     def e_UnaryExprOrTypeTraitExpr(self, n):
+        if n.get('name') == 'sizeof':
+            # the C++ object size is a platform fact: a named constant the spec supplies
+            ks = kids(n)
+            t = n.get('argType') or (ks[0].get('type') if ks else None)
+            if t:
+                m = re.match(r'^(?:const )?(?:unsigned |signed )?char ?\[(\d+)\]$', (t.get('desugaredQualType') or t.get('qualType') or '').strip())
+                if m:
+                    return '((uint64_t)%s)' % m.group(1)      # sizeof of a character array: its declared length
+                return 'SIZEOF__%s' % sanitize(self.ty.ctype_of(t))
         self.unsupported(n)
 
     def e_InitListExpr(self, n):
@@ -2556,6 +2565,8 @@ class Unit:
         man.append(' */')
         out.extend(man)
         out.append('#include "acxx.h"')
+        for inc in self.cfg.get('prelude', []):
+            out.append('#include "%s"   /* C views of system types named in cfg types */' % inc)
         # 1. types: structs for value_structs (only fields that are used or mappable)
         struct_defs = {}
         deps = {}
